@@ -13,6 +13,9 @@ OpRec(id, kd) == [id |-> id, typ |-> "ADD", kind |-> kd, key |-> 1]
 OpMsgs == {[k |-> "ops", ops |-> <<OpRec(nid, "nh")>>],
            [k |-> "ops", ops |-> <<OpRec(nid, "v4"), OpRec(nid + 1, "nhg")>>]}
 
+\* a request that reuses the id of the previous operation (recorded as a send error when that one is still pending)
+DupMsgs == IF WithViolations /\ nid > 1 /\ (nid - 1) \in DOMAIN pend THEN {[k |-> "ops", ops |-> <<OpRec(nid - 1, "nhg")>>]} ELSE {}
+
 \* results the server may send: for pending ids the next status in order; violations: unknown id, repeated terminal
 NextSt(id) ==
   IF \E i \in DOMAIN results : results[i].k = "op" /\ results[i].id = id /\ results[i].st = "RIB" /\ id \in DOMAIN pend
@@ -37,8 +40,9 @@ MCNext ==
      /\ UNCHANGED nid
   \/ /\ n > 0 /\ n < MaxSteps
      /\ \/ CConnect /\ H([a |-> "connect"]) /\ UNCHANGED nid
-        \/ /\ conn = "up" /\ nid <= MaxOps
-           /\ \E m \in OpMsgs : CQ(m) /\ H([a |-> "q", m |-> m]) /\ nid' = nid + Len(m.ops)
+        \/ /\ conn \in {"none", "up"} /\ nid <= MaxOps       \* queueing before Connect is how fluent uses the client
+           /\ \E m \in OpMsgs \cup DupMsgs : CQ(m) /\ H([a |-> "q", m |-> m])
+                 /\ nid' = IF m \in DupMsgs THEN nid ELSE nid + Len(m.ops)
         \/ CStart /\ H([a |-> "start"]) /\ UNCHANGED nid
         \/ /\ sending /\ \E r \in Resps : CDeliver(r) /\ H([a |-> "deliver", r |-> r]) /\ UNCHANGED nid
         \/ /\ WithFaults /\ sending /\ CRecvFail /\ H([a |-> "recvfail", code |-> "Unavailable"]) /\ UNCHANGED nid
